@@ -21,6 +21,19 @@ func init() {
 	Exec["bmtree.Decode"] = func(a []V) string {
 		return U64s(bmtree.Decode(a[0].I32(), a[1].U64s()))
 	}
+	// held variants: both calls are made before either result is read
+	Exec["bmtree.AllPaths/held"] = func(a []V) string {
+		x, y := a[0].L, a[1].L
+		r1 := bmtree.AllPaths(x[0].I32(), x[1].U64(), x[2].U64())
+		r2 := bmtree.AllPaths(y[0].I32(), y[1].U64(), y[2].U64())
+		return L(U64s(r1), U64s(r2))
+	}
+	Exec["bmtree.Decode/held"] = func(a []V) string {
+		x, y := a[0].L, a[1].L
+		r1 := bmtree.Decode(x[0].I32(), x[1].U64s())
+		r2 := bmtree.Decode(y[0].I32(), y[1].U64s())
+		return L(U64s(r1), U64s(r2))
+	}
 	Exec["bmtree.Decode/roundtrip"] = func(a []V) string {
 		T := a[0].I32()
 		h := int32(c04Height(T))
@@ -202,6 +215,30 @@ func genC04(g *Gen) {
 			key = fmt.Sprintf("R/%s/%s/%s", c03Kind(T), c04HB(h), c04NB(len(S)))
 		}
 		g.Do("bmtree.Decode/roundtrip", L(I32(T), L(xs...)), key)
+	}
+
+	// (0) held variants first thing in the run, over ascending output sizes (capacity boundaries of
+	//     a reused buffer are crossed): two calls, then both results are compared
+	for h := 0; h <= 9; h++ {
+		for _, T := range []int32{int32(1)<<uint(h+1) - 1, int32(1) << uint(h), int32(1)<<uint(h) | 1, int32(1)<<uint(h) | int32(0x155)&(int32(1)<<uint(h)-1)} {
+			h2 := (h + 3) % 7
+			T2 := int32(1)<<uint(h2+1) - 1 - int32(g.R.Intn(1<<uint(h2)))
+			g.Stat("held")
+			key := fmt.Sprintf("H/%s/%s", c03Kind(T), c04HB(h))
+			mid := uint64(1)<<uint(h)>>1<<32 | 1
+			g.Do("bmtree.AllPaths/held", L(L(I32(T), U(0), U(^uint64(0))), L(I32(T2), U(0), U(^uint64(0)))), key)
+			g.Do("bmtree.AllPaths/held", L(L(I32(T), U(mid), U(^uint64(0))), L(I32(T), U(0), U(mid))), key)
+			bm := make([]uint64, (int(T)+63)/64)
+			bm2 := make([]uint64, (int(T2)+63)/64)
+			for i := range bm {
+				bm[i] = g.R.U64() | g.R.U64()
+			}
+			for i := range bm2 {
+				bm2[i] = ^uint64(0)
+			}
+			g.Do("bmtree.Decode/held", L(L(I32(T), U64s(bm)), L(I32(T2), U64s(bm2))), key)
+			g.Do("bmtree.Decode/held", L(L(I32(T2), U64s(bm2)), L(I32(T), U64s(bm))), key)
+		}
 	}
 
 	// candidate bounds of a small tree: every stored word, every stored word +-1, 0, 2^64-1
